@@ -112,7 +112,7 @@ def plan(tier, seed):
     nfa(('nfa', 2, 2, 3, False), SPARSE, 4, morph=True)
     nfa(('nfa', 3, 1, 3, False), [('t', '', 'sparse')], 4, morph=True)
     # wave 5: wide alphabets, further name schemes and epsilon spellings, other presentations of the transition dict
-    EXTRA = [('s', 'ba', 'sparse'), ('u', '', 'sparse', 'gr'), ('g', '_', 'sparse'), ('K', 'ε', 'sparse'), ('f', '', 'sparse')]
+    EXTRA = [('s', 'ba', 'sparse'), ('u', '', 'sparse', 'gr'), ('g', '_', 'sparse'), ('K', 'ε', 'sparse'), ('f', '', 'sparse'), ('n', '', 'sparse', 'nf'), ('b', '_', 'sparse')]
     WIDE = [('s', '', 'sparse', 'w'), ('t', '_', 'total', 'w')]
     nfa(('nfa', 1, 2, None, False), EXTRA, 1)
     nfa(('nfa', 2, 1, None, False), EXTRA, 4)
@@ -124,6 +124,8 @@ def plan(tier, seed):
     nfa(('nfa', 2, 6, 2, True), WIDE, 2)
     nfa(('nfa', 2, 7, 2, True), WIDE[:1], 2)
     nfa(('nfa', 3, 5, 2, True), WIDE[:1], 4)
+    nfa(('star', 13), SPARSE + [('q', '_', 'total')], 4)     # wave 6: 13 states, the subsets {1,2} and {12}
+    nfa(('star', 14), SPARSE, 4)
     base = list(tasks)
     tiny = lambda name, p: not p['morph'] and p['variants'] in (SPELL, SPARSE) and p['space'] in (('nfa', 1, 2, None, False), ('nfa', 2, 1, None, False), ('chain', 4))
     tasks += common.ordered_copies(base, tiny, orders=('canonical', 'reversed') + common.OBJ_ORDERS)
